@@ -394,6 +394,16 @@ fn main() {
 
     // 5. interior mutability scan (leaf granularity is complete only without shared mutable state)
     let (files, hits) = scan_repo();
+    // shared mutable state in the library itself (outside the hook module) makes leaf granularity unsound: say so
+    let foreign: Vec<&String> = hits.iter().filter(|h| !h.starts_with("verif.rs:")).collect();
+    if !foreign.is_empty() {
+        rep.caps.push(format!(
+            "interior mutability in the library ({}): leaves are no longer atomic with respect to it, so the exploration at leaf granularity is NOT exhaustive for races on that state; only the real-rayon runs exercise it",
+            foreign.iter().map(|h| h.as_str()).collect::<Vec<_>>().join("; ")
+        ));
+        say!("note: C05 found shared mutable state in /repo/src outside the hook module ({} site(s)); the schedule exploration is not exhaustive for it (see evidence)", foreign.len());
+    }
+    let leaf_sound = foreign.is_empty();
     rep.notes.insert("interior_mutability_scan".into(), Json::obj().with("files", Json::i(files as i64)).with("hits", Json::Arr(hits.iter().map(|h| Json::s(h.clone())).collect())));
     {
         let salts: u64 = if tier.thorough() { 1024 } else { 96 };
@@ -428,7 +438,7 @@ fn main() {
             if tier.thorough() { " (pairs of regions: <= 2 non-canonical choices per region)" } else { "" }
         ),
         bound: format!("deviating regions <= {}; within one deviating region the enumeration is complete (cap {} schedules per unit)", if tier.thorough() { 2 } else { 1 }, max_per_unit),
-        exhaustive: true,
+        exhaustive: leaf_sound,
         assumptions: vec![
             "scheduler model of rayon 1.10 at leaf granularity (the sequential fold of a producer piece is atomic); sound for closures without interior mutability — see interior_mutability_scan".into(),
             "the inner iterators of flat_map are consumed sequentially inside a leaf".into(),
